@@ -35,6 +35,15 @@ from ..engine import Query
 from ..lib.periph import VS, in_vsync
 
 PROP = "C52"
+
+# FINDINGS
+#   fixed in /repo by 1d15c4f "fix: only take the I2C START shortcut when we are not driving SDA ourselves":
+#     history STOP, START, then START requested again in the first cycle busy is low: IDLE chose the short START-SDA-L
+#     path from the synchronised (2 cycles old) sda_i while the initiator had just begun to pull SDA low itself, so no
+#     START edge was generated for the accepted request.  Caught by start_stop in the free layer (bmc_free_ctrl).
+#   The scenario predicate kf_start_on_stale_sda describes that finding; no entry is open.
+#   Observation outside the statement (not asserted): a strobe given in the first IDLE cycle after an operation, while
+#     busy still reads 1, is accepted although the docstring says strobes are ignored while busy is high.
 ENCODED = ["luna/gateware/interface/i2c.py: I2CInitiator.elaborate (timer/stb, scl_l/scl_h/stb_x FSM, shift registers)",
            "luna/gateware/interface/i2c.py: I2CBusDriver.elaborate (open-drain enables, synchronisers)"]
 ASSUMPTIONS = [
@@ -48,11 +57,11 @@ ASSUMPTIONS = [
     "'SCL high' for the SDA-change rule means high in the cycle of the change or in the cycle before it "
     "(no simultaneous edges)",
 ]
-BOUNDS = "BMC from reset, period_cyc=4 (thorough also 8 for the start/stop layer); layer A: everything free, K covers " \
-         "start/stop/repeated start sequences and the first bits of a transfer incl. stretching; layer B: request times " \
-         "pinned (cycle 1 and >=100, kind and data free), no stretching, target SDA free: one complete write or read and " \
-         "the following operation; layer C (thorough): the same with free stretching in the first 50 cycles, and START " \
-         "followed by a complete transfer"
+BOUNDS = "BMC from reset, period_cyc=4 (thorough also 8 for the start/stop layer); layer A: everything free, K=24 (46) " \
+         "covers start/stop/repeated start sequences and the first bits of a transfer incl. stretching; layer B: a single " \
+         "write or read requested in cycle 1 (kind/data free), no stretching, target SDA free: the complete 9-clock " \
+         "transfer; thorough adds: read with free stretching in the first 24 cycles, one transfer + following operation, " \
+         "START followed by a complete transfer (best effort)"
 OUTSIDE = "period_cyc values other than 4 (8); clk_stretch=False; strobes while busy is high (the first IDLE cycle accepts " \
           "them although the docstring says they are ignored -- not part of the statement); more than ~1.3 byte " \
           "transfers per run; I2CRegisterInterface"
@@ -83,7 +92,7 @@ class I2CHarness(Harness):
         self.v = {n: self.viol(n) for n in names}
         self.k_stale = self.kf("start_on_stale_sda")
         cov = ("start_done", "repeated_start_done", "stop_done", "write_acked", "write_nacked", "read_done",
-               "stretched_bit", "write_bit3", "read_bit3", "start_then_write")
+               "stretched_bit", "write_bit2", "read_bit2", "start_then_write")
         self.c = {n: self.cover(n) for n in cov}
 
     def elaborate(self, platform):
@@ -213,9 +222,9 @@ class I2CHarness(Harness):
             self.c["write_acked"].eq(done & (op == WRITE) & dut.ack_o & (lat_data == 0xA6)),
             self.c["write_nacked"].eq(done & (op == WRITE) & ~dut.ack_o),
             self.c["read_done"].eq(done & (op == READ) & (dut.data_o == 0x5B) & lat_ack),
-            self.c["stretched_bit"].eq(rise & is_xfer & dut.busy & stretched & (npulse == 1)),
-            self.c["write_bit3"].eq(rise & (cur == WRITE) & (npulse == 2) & ~sda_oe),
-            self.c["read_bit3"].eq(rise & (cur == READ) & (npulse == 2) & ~sda_line),
+            self.c["stretched_bit"].eq(rise & is_xfer & dut.busy & stretched & (npulse <= 1)),
+            self.c["write_bit2"].eq(rise & (cur == WRITE) & (npulse == 1) & ~sda_oe),
+            self.c["read_bit2"].eq(rise & (cur == READ) & (npulse == 1) & ~sda_line),
             self.c["start_then_write"].eq(rise & (cur == WRITE) & (prev_op == START) & (npulse == 0)),
         ]
         return m
@@ -246,69 +255,70 @@ def _only_at(times, first_kinds=None):
     return lay
 
 
+CTRL = ["sda_change", "start_stop", "stretch", "busy_rises"]
+WR = ["write_bits", "write_release", "write_ack"]
+RD = ["read_release", "read_data", "read_ack"]
+CLK = ["nine_clocks"]
+
+
+def _families(qs, tag, f, K, desc, groups, covers, layer=None, hints=None, required=True):
+    """each assertion family (and the cover twins) is one query solved in a single process on one unrolling"""
+    kw = dict(timeout=900, split=False, layer=layer, required=required)
+    for gname, asserts in groups:
+        qs.append(Query(f"bmc_{tag}_{gname}", f, K, asserts=asserts, covers=[], desc=desc + f" [{gname} family]", **kw))
+    if covers:
+        qs.append(Query(f"cover_{tag}", f, K, asserts=[], covers=covers, hints=hints, desc=desc + " [witnesses]", **kw))
+
+
 def queries(tier):
     qs = []
     quick = tier == "quick"
     f4 = lambda: I2CHarness(4)
-    ctrl_asserts = ["sda_change", "start_stop", "stretch", "busy_rises", "write_bits", "read_release", "nine_clocks"]
     # layer A: everything free (operation sequences start / repeated start / stop / first bits, stretching)
-    KA = 36 if quick else 46
-    qs.append(Query("bmc_free", f4, KA, timeout=900,
-                    covers=["start_done", "repeated_start_done", "stop_done", "stretched_bit", "write_bit3", "read_bit3",
-                            "start_then_write"],
-                    desc="period_cyc=4: controller strobes, data, target SCL (stretching) and SDA free every cycle"))
-    # layer B (restricted, cheap): exactly one request, in cycle 1, of a fixed kind; data, ack_i and the target's SDA
-    # free in every cycle; no stretching.  Depth = the whole 9-clock transfer (completes in cycle 111).
-    for kind, asserts, covers in (
-            ("write", ["write_bits", "write_release", "write_ack", "nine_clocks", "sda_change"], ["write_acked", "write_nacked"]),
-            ("read", ["read_release", "read_data", "read_ack", "nine_clocks", "sda_change"], ["read_done"])):
-        lay = {n: 0 for n in STROBES}
-        lay[kind] = (lambda t: None if t == 1 else 0)
-        lay["tgt_scl"] = 1
-        qs.append(Query(f"bmc_single_{kind}", f4, 116, timeout=900, layer=lay, asserts=asserts, covers=covers,
-                        desc=f"layer: a single {kind} requested in cycle 1 (data/ack_i free), no stretching, target SDA free in "
-                             "every cycle: the complete 9-clock transfer"))
-    # layer B': a single read whose first bits the target may stretch freely (SCL held low at will during the first 24
-    # cycles) while changing SDA during the stretch: the sampled bit must be the one present when SCL is really high
-    lay = {n: 0 for n in STROBES}
-    lay["read"] = (lambda t: None if t == 1 else 0)
-    lay["tgt_scl"] = (lambda t: None if t < 24 else 1)
-    qs.append(Query("bmc_single_read_stretch", f4, 128, timeout=900, layer=lay,
-                    asserts=["read_data", "nine_clocks", "stretch"], covers=["stretched_bit"],
-                    desc="layer: a single read requested in cycle 1; the target stretches SCL freely during the first 24 cycles "
-                         "and drives SDA freely: complete transfer"))
-    # layer B2: one whole transfer with a free kind and whatever operation follows it.  The operation requested in
-    # cycle 1 is free (any of the four, data free), later requests are possible again from cycle 100 on; the target
-    # never stretches, its SDA is free.
+    KA = 24 if quick else 46
+    _families(qs, "free", f4, KA,
+              "period_cyc=4: controller strobes, data, target SCL (stretching) and SDA free every cycle",
+              [("ctrl", CTRL), ("write", WR + CLK), ("read", RD)],
+              ["start_done", "repeated_start_done", "stop_done", "stretched_bit", "write_bit2", "read_bit2",
+               "start_then_write"])
+    # layer B (restricted): exactly one request, in cycle 1, a write or a read (free choice); data, ack_i and the
+    # target's SDA free in every cycle; no stretching.  Depth = the whole 9-clock transfer (completes in cycle 111).
+    lay = {"start": 0, "stop": 0, "tgt_scl": 1}
+    for n in ("write", "read"):
+        lay[n] = (lambda t: None if t == 1 else 0)
+    _families(qs, "single_transfer", f4, 116,
+              "layer: a single write or read requested in cycle 1 (kind, data, ack_i free), no stretching, target SDA free "
+              "in every cycle: the complete 9-clock transfer",
+              [("write", WR), ("read", RD), ("ctrl", ["nine_clocks", "sda_change"])],
+              ["write_acked", "write_nacked", "read_done"], layer=lay,
+              hints={"write_acked": {"read": 0}, "write_nacked": {"read": 0}, "read_done": {"write": 0}})
     if not quick:
+        # layer B': a single read whose first bits the target may stretch freely (SCL held low at will during the first
+        # 24 cycles) while changing SDA during the stretch: the sampled bit must be the one present when SCL is really high
+        lay = {n: 0 for n in STROBES}
+        lay["read"] = (lambda t: None if t == 1 else 0)
+        lay["tgt_scl"] = (lambda t: None if t < 24 else 1)
+        _families(qs, "single_read_stretch", f4, 128,
+                  "layer: a single read requested in cycle 1; the target stretches SCL freely during the first 24 cycles "
+                  "and drives SDA freely: complete transfer",
+                  [("read", ["read_data", "nine_clocks", "stretch"])], ["stretched_bit"], layer=lay)
+        # layer B2: one whole transfer with a free kind and whatever operation follows it
         lay = _only_at(set([1]) | set(range(100, 200)))
         lay["tgt_scl"] = 1
-        qs.append(Query("bmc_one_transfer", f4, 130, timeout=900, layer=lay,
-                        covers=["write_acked", "write_nacked", "read_done"],
-                        hints={"write_acked": {"start": 0, "stop": 0, "read": 0},
-                               "write_nacked": {"start": 0, "stop": 0, "read": 0},
-                               "read_done": {"start": 0, "stop": 0, "write": 0}},
-                        desc="layer: requests only in cycle 1 and from cycle 100 on (kind/data free), no clock stretching, "
-                             "target SDA free: a complete write or read (all 9 clocks, ack, data) and the operation after it"))
-    # layer C: the same with the target stretching freely during the first 50 cycles
-    if not quick:
-        lay = _only_at(set([1]) | set(range(120, 200)))
-        lay["tgt_scl"] = (lambda t: None if t < 50 else 1)
-        qs.append(Query("bmc_one_transfer_stretch", f4, 150, timeout=900, required=False, layer=lay,
-                        covers=["write_acked", "read_done"],
-                        hints={"write_acked": {"start": 0, "stop": 0, "read": 0},
-                               "read_done": {"start": 0, "stop": 0, "write": 0}},
-                        desc="layer: request in cycle 1 (free kind), target stretches freely in the first 50 cycles; "
-                             "complete transfer"))
-        # start; transfer: request kinds free at cycle 1 and cycle 14.. (after a START has completed)
+        _families(qs, "one_transfer", f4, 130,
+                  "layer: requests only in cycle 1 and from cycle 100 on (kind/data free), no clock stretching, "
+                  "target SDA free: a complete write or read and the operation after it",
+                  [("ctrl", CTRL + CLK), ("write", WR), ("read", RD)], ["write_acked", "read_done"], layer=lay,
+                  hints={"write_acked": {"start": 0, "stop": 0, "read": 0}, "read_done": {"start": 0, "stop": 0, "write": 0}})
+        # layer C: START (or anything) followed by a complete transfer; best effort
         lay = _only_at(set([1]) | set(range(12, 20)))
         lay["tgt_scl"] = 1
-        qs.append(Query("bmc_start_transfer", f4, 130, timeout=900, required=False, layer=lay, covers=["write_acked"],
-                        hints={"write_acked": {"stop": 0, "read": 0}},
-                        desc="layer: requests only in cycles 1 and 12-19: START (or anything) followed by a complete transfer"))
+        _families(qs, "start_transfer", f4, 130,
+                  "layer: requests only in cycles 1 and 12-19: START (or anything) followed by a complete transfer",
+                  [("all", CTRL + CLK + WR + RD)], ["write_acked"], layer=lay, required=False,
+                  hints={"write_acked": {"stop": 0, "read": 0}})
         f8 = lambda: I2CHarness(8)
-        qs.append(Query("bmc_free_p8", f8, 56, timeout=900, asserts=ctrl_asserts,
-                        covers=["start_done", "stop_done"],
-                        desc="period_cyc=8: everything free, start/stop/first bits"))
-    qs.append(Query("cosim", f4, 0, kind="cosim", cosim_cycles=400 if quick else 3000))
+        _families(qs, "free_p8", f8, 56, "period_cyc=8: everything free, start/stop/first bits",
+                  [("ctrl", CTRL + ["write_bits", "read_release", "nine_clocks"])], ["start_done", "stop_done"])
+    qs.append(Query("cosim", f4, 0, kind="cosim", cosim_cycles=200 if quick else 3000))
     return qs
